@@ -34,6 +34,8 @@ class Emit:
             sys.stdout.flush()
             sys.stderr.flush()
             print(f'OUT{i}c')
+        if self.pattern == 'fails':
+            raise RuntimeError('planned failure after output')
         if self.pattern == 'chatty':
             # the same status line three times, then many records within one polling interval
             for _ in range(3):
@@ -66,11 +68,12 @@ def main(argv):
     c = Emit(ident=3, pattern='flush2', dep=b)      # finishes last
     d = Emit(ident=4, pattern='plain')
     e = Emit(ident=5, pattern='chatty')
+    f = Emit(ident=6, pattern='fails', dep=d)        # prints, then raises (continue_on_failure)
     lab = labtech.Lab(storage=None, runner_backend=backend, notebook=False, max_workers=2)
-    lab.run_tasks([c, d, e], disable_progress=True, disable_top=True)
+    lab.run_tasks([c, d, e, f], disable_progress=True, disable_top=True)
     delivered = list(h.msgs)                          # at the moment run_tasks returned
     tokens = []
-    for i, pattern in ((1, 'plain'), (2, 'flush'), (3, 'flush2'), (4, 'plain')):
+    for i, pattern in ((1, 'plain'), (2, 'flush'), (3, 'flush2'), (4, 'plain'), (6, 'fails')):
         tokens += [f'LOG{i}a', f'LOG{i}b', f'OUT{i}a', f'OUT{i}b', f'ERR{i}a']
         if pattern == 'flush2':
             tokens.append(f'OUT{i}c')
